@@ -93,6 +93,25 @@ func c14Doc(sp *saml2.SAMLServiceProvider, which string) (*etree.Document, error
 
 func c14Exec(c c14Case) (keys []string, detail, class string) {
 	sp, signer := c14SP(c)
+	keys, detail, class = c14ExecOn(sp, signer, c)
+	if len(keys) == 0 {
+		// a second URL from the SAME instance with another relay state and document
+		c2 := c
+		c2.Relay = (c.Relay + 5) % len(c14Relay)
+		c2.Doc = (c.Doc + 1) % len(c14Docs)
+		k2, d2, _ := c14ExecOn(sp, signer, c2)
+		for _, k := range k2 {
+			keys = append(keys, strings.Replace(k, "C14/", "C14/second-call-on-same-instance/", 1))
+		}
+		if len(k2) > 0 {
+			detail += " | second call on the same instance: " + d2
+			class = "DIFFERS"
+		}
+	}
+	return keys, detail, class
+}
+
+func c14ExecOn(sp *saml2.SAMLServiceProvider, signer string, c c14Case) (keys []string, detail, class string) {
 	relay := c14Relay[c.Relay]
 	fn := c14Funcs[c.Func]
 	var out string
